@@ -5,6 +5,10 @@
   A law speaks of the CONTENT of a schema object: `Laws.keywords n` is the node with everything the validity relation
   never reads (`$id`, `$schema`, `$anchor`, `$defs`, `title`, `default`, `format`, …) erased, so that
   `keywords n = { allOf := some [t] }` says "the only validation keyword of `n` is `allOf: [t]`".
+
+  Parts: this file (absent keywords, schema objects with one keyword, transfer to the evaluator); SpecLawsCongr
+  (replacing the content of one schema object by an equivalent one, anywhere in a schema); SpecLawsScope (the dynamic
+  scope); SpecLawsSplit (adjacent keywords are a conjunction); SpecLawsLoc (instance locations).
 -/
 import JSV.Proofs.InvPerm5
 import JSV.Proofs.Refine
